@@ -1,13 +1,16 @@
 /-
 Line-protocol driver of C15: the model of template/size bookkeeping, `map_from_CoG`, the virtual-site
-constructions, the `optimize_geometry` verdict and `compute_volume`, plus the specification predicates.
+constructions, the `optimize_geometry` verdict and `compute_volume`, plus the specification predicates;
+`handleBlock`: `extract_block`, `_relabel_interaction_atoms`, `find_interaction_involving`, `_good_impropers`,
+`_expand_inital_coords`, `renew_vs` and the energy of `target_function` (`Model/TemplatesBlock.lean`).
 Imports the model and the generated tables only (no proof file).
 -/
 import PolyplyVerif.Driver.Common
 import PolyplyVerif.Generated.TemplateTables
 import PolyplyVerif.Model.Rotation
 import PolyplyVerif.Model.Templates
-open Lean PolyplyVerif PolyplyVerif.Rot PolyplyVerif.Templ
+import PolyplyVerif.Model.TemplatesBlock
+open Lean PolyplyVerif PolyplyVerif.Rot PolyplyVerif.Templ PolyplyVerif.TemplBlock
 
 namespace PolyplyVerif.Driver.C15
 
@@ -55,6 +58,84 @@ def sizeToJson : Size → Json
 
 def dictToJson {β : Type} (f : β → Json) (d : Dict β) : Json :=
   Json.arr (d.map fun (k, v) => Json.arr #[Json.str k, f v]).toArray
+
+
+/-! #### blocks (`Model/TemplatesBlock.lean`) -/
+
+def strList (j : Json) : Except String (List String) := listOf (·.getStr?) j
+def natList (j : Json) : Except String (List Nat) := listOf (·.getNat?) j
+
+def ixnNatOfJson (j : Json) : Except String (Ixn Nat) := do
+  pure ⟨← natList (← field j "atoms"), ← strList (← field j "params"), ← (← field j "edge").getBool?⟩
+def ixnStrOfJson (j : Json) : Except String (Ixn String) := do
+  pure ⟨← strList (← field j "atoms"), ← strList (← field j "params"), ← (← field j "edge").getBool?⟩
+def ixnNatToJson (i : Ixn Nat) : Json :=
+  Json.mkObj [("atoms", toJson i.atoms), ("params", toJson i.params), ("edge", Json.bool i.edge)]
+def ixnStrToJson (i : Ixn String) : Json :=
+  Json.mkObj [("atoms", toJson i.atoms), ("params", toJson i.params), ("edge", Json.bool i.edge)]
+def typedOfJson {β : Type} (f : Json → Except String β) (j : Json) : Except String (Dict (List β)) :=
+  listOf (fun kv => do pure ((← strAt kv 0), (← listOf f (← kv.getArrVal? 1)))) j
+def typedToJson {β : Type} (f : β → Json) (d : Dict (List β)) : Json :=
+  dictToJson (fun l => Json.arr (l.map f).toArray) d
+def nameFun (j : Json) : Except String (Nat → String) := do
+  let tab ← listOf (fun kv => do pure ((← (← kv.getArrVal? 0).getNat?), (← strAt kv 1))) j
+  pure fun n => (tab.lookup n).getD ""
+def definesOfJson (j : Json) : Except String (Dict (List String)) :=
+  listOf (fun kv => do pure ((← strAt kv 0), (← strList (← kv.getArrVal? 1)))) j
+def vsIxnOfJson (j : Json) : Except String VsIxn := do
+  pure ⟨← strList (← field j "atoms"), ← (← field j "func").getStr?, ← listOf ratOfJson (← field j "params")⟩
+
+def handleBlock (op : String) (j : Json) : Except String Json := do
+  match op with
+  | "extract_block" =>
+    let name ← nameFun (← field j "names")
+    let nodes ← natList (← field j "nodes")
+    let mol ← typedOfJson ixnNatOfJson (← field j "interactions")
+    let defines ← definesOfJson (← field j "defines")
+    let block := extractBlock TemplateTables.edgeTypes name (fun n => n) mol nodes defines
+    pure (okJson [("nodes", Json.arr (block.nodes.map fun (k, n) => Json.arr #[Json.str k, toJson n]).toArray),
+                  ("interactions", typedToJson ixnStrToJson block.interactions),
+                  ("edges", Json.arr (block.edges.map fun (a, b) => Json.arr #[Json.str a, Json.str b]).toArray),
+                  ("molecule_after", typedToJson ixnNatToJson (moleculeAfter defines (mapping name nodes) mol)),
+                  -- specification side: distinct names in order of first occurrence; the interactions inside
+                  ("spec_names", toJson (firstOccurrences (nodes.map name))),
+                  ("spec_inside", typedToJson ixnStrToJson
+                    (mol.map fun (t, is) => (t, (is.filter (insideResidue nodes)).map (image name defines))))])
+  | "relabel" =>
+    let name ← nameFun (← field j "names")
+    let nodes ← natList (← field j "nodes")
+    match relabelAtoms (mapping name nodes) (← ixnNatOfJson (← field j "interaction")) with
+    | some b => pure (okJson [("interaction", ixnStrToJson b)])
+    | none => pure (errJson "KeyError")
+  | "find" =>
+    let inters ← typedOfJson ixnStrOfJson (← field j "interactions")
+    let cur ← (← field j "cur").getStr?
+    let prev ← (← field j "prev").getStr?
+    match findInteraction TemplateTables.findSearchTypes TemplateTables.findClass inters cur prev with
+    | some (vs, i, t) => pure (okJson [("vs", Json.bool vs), ("interaction", ixnStrToJson i), ("type", Json.str t)])
+    | none => pure (errJson "IOError")
+  | "good_impropers" =>
+    let items ← listOf (fun d => do
+      pure (⟨← (← field d "func").getStr?, ← ratOfJson (← field d "angle"), ← ratOfJson (← field d "ref")⟩ : Improper))
+      (← field j "items")
+    let atol ← ratOfJson (← field j "atol")
+    pure (okJson [("good", Json.bool (goodImpropers TemplateTables.improperFunc atol items))])
+  | "expand" =>
+    let goods ← listOf (·.getBool?) (← field j "goods")
+    let maxCount ← (← field j "max_count").getNat?
+    let r := expandInitialCoords (fun k => k) (fun k => goods.getD k false) maxCount
+    pure (okJson [("index", toJson r.1), ("calls", toJson r.2), ("default_max_count", toJson TemplateTables.expandMaxCount)])
+  | "renew_vs" =>
+    let inters ← typedOfJson vsIxnOfJson (← field j "interactions")
+    let pos ← templateOfJson (← field j "positions")
+    match renewVS TemplateTables.renewVsTypes TemplateTables.vsTable ratSqrt inters pos with
+    | some out => pure (okJson [("positions", templateToJson out)])
+    | none => pure (errJson "raises")
+  | "energy" =>
+    let items ← listOf itemOfJson (← field j "items")
+    pure (okJson [("energy", ratToJson (energy TemplateTables.weights TemplateTables.interMethods
+      TemplateTables.penaltyWeightKey items))])
+  | _ => throw s!"unknown op {op}"
 
 def handle (j : Json) : Except String Json := do
   let op ← (← field j "op").getStr?
@@ -133,6 +214,6 @@ def handle (j : Json) : Except String Json := do
     let same := a.length == b'.length &&
       (List.zipWith (fun x y => x.1 == y.1 && specClose tol x.2 y.2) a b').all id
     pure (okJson [("close", Json.bool same)])
-  | _ => throw s!"unknown op {op}"
+  | _ => handleBlock op j
 
 end PolyplyVerif.Driver.C15
